@@ -155,6 +155,12 @@ def collect_sidecar(eq, mesh):
     return side
 
 
+def copy_deep(x):
+    import copy
+
+    return copy.deepcopy(x)
+
+
 def build_equilibrium(desc, workdir):
     """Returns (eq, options, extra) built the way a user would."""
     fam = desc["family"]
@@ -187,7 +193,11 @@ def build_equilibrium(desc, workdir):
     if fam == "T":
         from hypnotoad.cases import torpex
 
-        eq = torpex.TORPEXMagneticField(desc["eq"]["equilibOptions"], options)
+        eq = torpex.TORPEXMagneticField(copy_deep(desc["eq"]["equilibOptions"]), options)
+        # as hypnotoad.cases.torpex.createMesh does
+        options = dict(options)
+        options.update(eq.user_options)
+        eq.makeRegions()
         return eq, options
     raise ValueError("unknown family %r" % fam)
 
